@@ -511,6 +511,11 @@ impl Property for C12 {
         shrink_ops(&t.ops).into_iter().map(|ops| Trace { ops }).collect()
     }
 
+    /// "no call panics": a call that kills the process or never returns is worse than one that unwinds
+    fn crash_is_violation() -> bool {
+        true
+    }
+
     fn meta() -> Meta {
         Meta {
             level: "exploration",
